@@ -239,7 +239,45 @@ def reorder(tree: ast.Module) -> ast.Module:
     return tree
 
 
-TRANSFORMS = {"reformat": reformat, "rename_locals": rename_locals, "noop": noop, "hoist": hoist, "swap_if_else": swap_if_else, "augassign": augassign,
+def early_exit(tree: ast.Module) -> ast.Module:
+    """``if c: A(exits) else: B`` -> ``if c: A`` followed by B;  ``if c: A else: B(exits)`` -> ``if not c: B`` followed by A (guard clauses instead of nesting)."""
+    EXIT = (ast.Return, ast.Raise, ast.Continue, ast.Break)
+
+    def exits(b):
+        return bool(b) and isinstance(b[-1], EXIT)
+
+    def visit(body):
+        out = []
+        for st in body:
+            for f in ("body", "orelse", "finalbody"):
+                sub = getattr(st, f, None)
+                if isinstance(sub, list) and sub and isinstance(sub[0], ast.stmt) and not isinstance(st, (ast.ClassDef, ast.FunctionDef, ast.AsyncFunctionDef)):
+                    setattr(st, f, visit(sub))
+            if isinstance(st, ast.Try):
+                for h in st.handlers:
+                    h.body = visit(h.body)
+            if isinstance(st, ast.If) and st.orelse and not (len(st.orelse) == 1 and isinstance(st.orelse[0], ast.If)):
+                if exits(st.body):
+                    rest, st.orelse = st.orelse, []
+                    out.append(st)
+                    out.extend(rest)
+                    continue
+                if exits(st.orelse):
+                    st.test = ast.UnaryOp(op=ast.Not(), operand=st.test)
+                    rest, st.body, st.orelse = st.body, st.orelse, []
+                    out.append(st)
+                    out.extend(rest)
+                    continue
+            out.append(st)
+        return out
+
+    for n in ast.walk(tree):
+        if isinstance(n, (ast.FunctionDef, ast.AsyncFunctionDef)):
+            n.body = visit(n.body)
+    return tree
+
+
+TRANSFORMS = {"early_exit": early_exit, "reformat": reformat, "rename_locals": rename_locals, "noop": noop, "hoist": hoist, "swap_if_else": swap_if_else, "augassign": augassign,
               "reorder": reorder}
 
 
